@@ -1210,11 +1210,27 @@ func decodeSixel(body string) (*sixelPic, bool) {
 	return p, true
 }
 
+// sixelPadRows counts the pixel rows found below a picture inside its last band of six
+var sixelPadRows = map[int]int{}
+
 // sixelShows: the decoded string shows exactly the picture (opaque pixels with their colour at
-// sixel precision, transparent pixels not set, nothing outside)
+// sixel precision, transparent pixels not set, nothing outside).  Not compared: the rows below
+// the picture inside its last band of six - go-sixel reads them through image.Paletted.At, which
+// answers palette entry 0 outside the bounds, and writes them (oracle behaviour, counted in
+// the statistics as sixel_rows_below_picture)
 func sixelShows(p *sixelPic, want image.Image) bool {
 	b := want.Bounds()
 	seen := 0
+	pad := 0
+	for at := range p.px {
+		if at[1] >= b.Max.Y && at[1] < (b.Max.Y+5)/6*6 && at[0] < b.Max.X {
+			seen++
+			if at[1]-b.Max.Y+1 > pad {
+				pad = at[1] - b.Max.Y + 1
+			}
+		}
+	}
+	sixelPadRows[pad]++
 	for y := 0; y < b.Max.Y; y++ {
 		for x := 0; x < b.Max.X; x++ {
 			r, g, bl, a := want.At(x, y).RGBA()
@@ -1790,6 +1806,7 @@ func main() {
 	gh.Known = "c20_gfxhist_known"
 	gh.KnownClass = "kitty-no-encoding"
 	extra["kitty_no_encoding_histories_generated"] = genGfxHist(cfg, gh)
+	extra["sixel_rows_below_picture"] = fmt.Sprint(sixelPadRows)
 
 	extra["quantiser_images_checked"] = genQuant(cfg, &direct)
 
